@@ -1,2 +1,7 @@
+"""C03: the core state machine, plus the live cross-check of the simulated kernel (harness/props/live_core.py: the same
+scenarios on real processes; no Lean side)."""
 from harness.corecheck import make
-MODULE = make("C03", ["CircusProofs/Props/C03.lean"], ["CircusProofs/Core/Pres.lean"])
+from harness.props import live_core
+PARTS = [make("C03", ["CircusProofs/Props/C03.lean"],
+              ["CircusProofs/Core/Pres.lean"]),
+         live_core]
